@@ -496,6 +496,7 @@ def run_all(specs: list[dict], jobs: int = 14, timeout: int = 120) -> list[dict]
     return out
 
 
+HEAVY = ["ptab", "ftab", "dtab", "stab", "snaps", "evo", "calls", "trend", "tpos", "sub", "aux", "lead", "cyc", "nerr", "lefe", "dec", "x_sites"]
 TLC_FIELDS = ["id", "N", "dir", "D", "sizecls", "elitist", "kindp", "mc", "hasFe", "hasEs", "pat", "lefe", "dec", "nrates",
               "rate_ok", "steps", "gens", "ptab", "ftab", "dtab", "stab", "snaps", "evo", "best", "calls", "crash",
               "completed", "cfg_same", "task_same", "trend_ok", "trend", "tpos", "sub", "repro", "reuse", "cyc", "nerr", "lead", "aux", "slotwise"]
@@ -523,18 +524,42 @@ def corpus(tier: str, seed: int) -> dict:
             return v
         t0 = time.time()
         specs = plan(tier, seed)
-        raw = run_all(specs)
-        records = [r for r in raw if "skipped" not in r and "harness_error" not in r]
-        skipped = [{"id": r["id"], "opt": r["opt"], "why": r["skipped"]} for r in raw if "skipped" in r]
-        errors = [{"id": r["id"], "opt": r["opt"], "why": r["harness_error"]} for r in raw if "harness_error" in r]
-        t1 = time.time()
-        bad, states, consumed = judge_runs(records, f"pop-{tier}")
+        # chunked: run -> judge -> keep full records only where they are needed (flagged runs + a pool of clean ones for
+        # samples and canaries); everything else is reduced to the fields the checks aggregate over (bounded memory)
+        records, skipped, errors, bad = [], [], [], []
+        states = consumed = 0
+        full_kept = 0
+        judge_wall = 0.0
+        for c0 in range(0, len(specs), 3000):
+            raw = run_all(specs[c0:c0 + 3000])
+            chunk = [r for r in raw if "skipped" not in r and "harness_error" not in r]
+            skipped += [{"id": r["id"], "opt": r["opt"], "why": r["skipped"]} for r in raw if "skipped" in r]
+            errors += [{"id": r["id"], "opt": r["opt"], "why": r["harness_error"]} for r in raw if "harness_error" in r]
+            tj = time.time()
+            b, st, cons = judge_runs(chunk, f"pop-{tier}")
+            judge_wall += time.time() - tj
+            bad += b
+            states += st
+            consumed += cons
+            flagged = {i for i, _ in b}
+            for r in chunk:
+                r["n_agents"] = sum(len(g) for g in r["evo"])
+                r["n_snaps"] = len(r["snaps"])
+                keep = r["id"] in flagged or (full_kept < 120 and r["completed"] and r["gens"] >= 3 and r["N"] >= 3)
+                if keep and r["id"] not in flagged:
+                    full_kept += 1
+                if not keep:
+                    for k in HEAVY:
+                        r.pop(k, None)
+                    r["slim"] = True
+                records.append(r)
+        t1 = time.time() - judge_wall
         cdir.mkdir(parents=True, exist_ok=True)
         with open(cdir / "records.ndjson", "w") as f:
             for r in records:
                 f.write(json.dumps(r) + "\n")
         v = {"bad": [list(b) for b in bad], "states": states, "consumed": consumed, "skipped": skipped, "errors": errors,
-             "run_wall": round(t1 - t0, 1), "judge_wall": round(time.time() - t1, 1), "planned": len(specs)}
+             "run_wall": round(t1 - t0, 1), "judge_wall": round(judge_wall, 1), "planned": len(specs)}
         done.write_text(json.dumps(v))
         # keep only the three most recent cache entries
         ents = sorted([p for p in (WORK / "cache").iterdir() if p.is_dir()], key=lambda p: p.stat().st_mtime)
